@@ -132,7 +132,8 @@ NAMESPACES = {'Lemmas.MiniPyFuel': 'Bridge.Py',
               'Translated.ThreadsSeatB': 'Bridge.Translated.SeatB', 'Translated.ThreadsClientA': 'Bridge.Translated.ClientA',
               'Translated.ThreadsSeatC': 'Bridge.Translated.SeatC', 'Translated.ThreadsClientB': 'Bridge.Translated.ClientB',
               'Translated.ThreadsMainC': 'Bridge.Translated.MainC',
-              'Translated.ThreadsSeatD': 'Bridge.Translated.SeatD', 'Translated.ThreadsClientC': 'Bridge.Translated.ClientC'}
+              'Translated.ThreadsSeatD': 'Bridge.Translated.SeatD', 'Translated.ThreadsClientC': 'Bridge.Translated.ClientC',
+              'Translated.ThreadsClientD': 'Bridge.Translated.ClientD', 'Translated.ThreadsMainD': 'Bridge.Translated.MainD'}
 
 
 def prop_module(prop):
